@@ -185,6 +185,34 @@ example : Spec.intArith .div .i8 (-7) 2 = .ok (.int .i8 (-3)) ∧ Spec.intArith 
     ∧ Spec.intArith .lt .u16 3 65535 = .ok (.bool true) ∧ Spec.ITy.i8.inRange (-7) = true := by
   refine ⟨rfl, rfl, rfl, rfl⟩
 
+/-- **`spec_float_generated`.**  The float half of the same bridge: wherever C01's reference
+    interpreter defines `a op b` on `f32` / `f64` (`+ - * /` and the six comparisons; `>` `>=` are
+    `<` `<=` with the operands exchanged, `!=` is the negation of `==`) the generated `lower_binop` at
+    `Primitive.Float` yields an instruction whose generated codegen arm applies the SAME `FloatOps`
+    function to the SAME operands in the same order — for every instance of `FloatOps` (the
+    hardware's IEEE-754 included); and unary `-` is `FloatOps.neg` on both sides. What the theorem
+    does not cover: how the AST reaches that instruction (`mir/lower.rs`; a rewrite of `-(a - b)`
+    there is the differential run's float class representatives' and the MIR tie's business). -/
+theorem spec_float_generated [FloatOps] (dbg : Bool) (op : Spec.BinOp) :
+    (∀ (a b : BitVec 32) (v : Spec.Val), Spec.f32Arith op a b = .ok v →
+      ∃ i cv, lower_binop dbg (C01SpecOps.genOpS op) (.Primitive (.Float .F32)) = .ok i ∧ C01SpecOps.cvF v = some cv
+        ∧ runInstr dbg i (operands (CVal.f32 a) (CVal.f32 b)) = .ok cv)
+    ∧ (∀ (a b : BitVec 64) (v : Spec.Val), Spec.f64Arith op a b = .ok v →
+      ∃ i cv, lower_binop dbg (C01SpecOps.genOpS op) (.Primitive (.Float .F64)) = .ok i ∧ C01SpecOps.cvF v = some cv
+        ∧ runInstr dbg i (operands (CVal.f64 a) (CVal.f64 b)) = .ok cv)
+    ∧ (∀ (a : BitVec 32) (v : Spec.Val), Spec.negate (.f32 a) = .ok v →
+      ∃ cv, C01SpecOps.cvF v = some cv ∧ cg_Negate dbg (CVal.f32 a) = .ok cv)
+    ∧ (∀ (a : BitVec 64) (v : Spec.Val), Spec.negate (.f64 a) = .ok v →
+      ∃ cv, C01SpecOps.cvF v = some cv ∧ cg_Negate dbg (CVal.f64 a) = .ok cv) :=
+  ⟨(C01SpecOps.spec_float_binop_generated dbg op).1, (C01SpecOps.spec_float_binop_generated dbg op).2,
+   (C01SpecOps.spec_float_neg_generated dbg).1, (C01SpecOps.spec_float_neg_generated dbg).2⟩
+
+/-- non-vacuity: `Spec` defines the float operators (here `-`, `>=`, `!=` and unary `-` on `f64`). -/
+example [F : FloatOps] (a b : BitVec 64) :
+    Spec.f64Arith .sub a b = .ok (.f64 (F.sub64 a b)) ∧ Spec.f64Arith .ge a b = .ok (.bool (F.le64 b a))
+    ∧ Spec.f64Arith .ne a b = .ok (.bool (!F.eq64 a b)) ∧ Spec.negate (.f64 a) = .ok (.f64 (F.neg64 a)) :=
+  ⟨rfl, rfl, rfl, rfl⟩
+
 /-! ## the executable composed model (the driver's second oracle) -/
 
 /-- **`lower_correct_run_partial`.**  The executable semantics `C01MirRun.runMain` — structured MIR
